@@ -22,6 +22,30 @@ CLAIMS = {
  'C14': ("C14_mst: mst_with performs EXACTLY n(n-1)/2 index computations for every valid matrix, any comparison behaviour, both build modes, any prior state (hence the bound); C14_small; C14_dispatch (generated table). The nnchain bound is NOT proved: it rests on the exact equality of the model's counter with the kodama_verif hook counter on every generated case plus the oracle checking 10n^2+50n on the real crate on adversarial inputs (sorted, reverse-sorted, all ties, geometric progressions) up to n=400 quick / 2000 thorough.",
          "Lean kernel + standard axioms; Active-list refinement and Mat index lemmas proved; the counter placement in the model is hand-modelled and tied to the hook counter by exact comparison; hook: thread-local counter in matrix_to_condensed_idx under cfg(kodama_verif).",
          "Lean 4 theorem (exact count for mst) + exact counter correspondence with the instrumented crate + bound oracle"),
+ 'C01': ("C01_relabel (any raw spanning tree -> WellFormed, via union-find refinement + forest lemma 'effective unions are permutation invariant'), C01_mst, C01_primitive (all 7 methods), C01_linkage_single: for every valid matrix (2<=n<2^31), both build modes, every prior state and ANY behaviour of the number operations the returned dendrogram is Spec.WellFormed with observations = n; C01_sizes_pos; n<=1 empty (C12_empty); any greedy-valid dendrogram of the spec is well-formed (C06_wellFormed). NOT proved: that nnchain's and generic's raw steps form a spanning tree (needs chain/heap invariants) - for those entry points: bit-exact correspondence + independent structural validator on every dendrogram.",
+         'Lean kernel + standard axioms; find() modelled without path compression; sort_by modelled as stable mergeSort; correspondence harness for the hand-modelled loops.',
+         'Lean 4 theorems (union-find refinement, forest lemma, loop invariants of mst/primitive) + bit-exact correspondence + structural validator'),
+ 'C02': ("All seven generated Lance-Williams formulas proved equal to the documented criteria over any linearly ordered field (exact arithmetic): C02_single/complete(_criterion), C02_average, C02_weighted(_tree), C02_median(_tree), C02_centroid, C02_ward (+ _recurrence cores), C02_spec_invariant and C02_greedy_heights(_closed): in ANY greedy-valid run of the label-based spec every height is the criterion of the two merged clusters computed from the ORIGINAL matrix. A wrong coefficient / swapped size / Ward dropped from on_squares breaks the build (7 mutations confirmed). NOT proved: the float gap (measured against 1e-9/1e-3 by the criterion oracle on the real crate); that each Rust algorithm's run is greedy-valid (C03).",
+         'Lean kernel + standard axioms + Mathlib field tactics; translator for method.rs and the on_squares table; exact-arithmetic theorems (IEEE floats are not a field): tolerance part is measured by the oracle, which recomputes each criterion from the original matrix by its definition.',
+         'Lean 4 theorems over translated formulas (ordered field) + criterion oracle from the original matrix + bit-exact correspondence'),
+ 'C04': ("Spec level, full strength: C04_min_invariant, C04_heights_sorted, C04_of_greedy (for EVERY level h the clusters cut at h are exactly the connected components of the threshold graph), C04_count (number of steps <= h = n - #components: the order-theoretic MST weight multiset characterisation) for any greedy-valid single-linkage dendrogram, using only OrderLaws (true of IEEE floats; ties, +-0 allowed; NaN-free input). NOT yet proved: that each entry point's single-linkage output is greedy-valid (mst: Prim interval lemma; others via C03). Exactness on the real crate: Kruskal oracle with its own DSU, partitions at every distinct height and height multiset compared bit-exactly, all five entry points, n up to 60 quick / 2000 thorough.",
+         'Lean kernel + standard axioms; OrderLaws for floats; link from the algorithms to the spec is by correspondence + oracle, not yet by theorem.',
+         'Lean 4 theorem on the label-based spec (threshold components) + Kruskal oracle + bit-exact correspondence'),
+ 'C06': ('C06_unique (two greedy-valid dendrograms of a tie-free input are EQUAL: labels, sizes, heights; uses no number law at all, so it holds verbatim for IEEE floats), C06_unique_from, C06_wellFormed, plus the generated dispatch table (C14_dispatch/C01_linkage_single). NOT proved: that every entry point returns a greedy-valid dendrogram (C03, in progress) - hence agreement of the five algorithms is established by the oracle: all applicable entry points compared with each other and with an independent naive Lance-Williams on margin-certified tie-free inputs (random, Euclidean, clustered, sorted), both widths, n to 40 quick / 200 thorough.',
+         'Lean kernel + standard axioms; tie-freeness is certified numerically by the oracle (margin 64*tol*scale).',
+         'Lean 4 uniqueness theorem on the spec + cross-algorithm / naive-reference oracle + bit-exact correspondence'),
+ 'C11': ('C11_spec (greedy validity is equivariant under renumbering: same heights, sizes, and cluster families as sets), C11_spec_unique (with C06_unique: on tie-free input the hierarchy of ANY greedy-valid dendrogram of the permuted matrix is the image of that of the original), C11_lwSymm (symmetry of all seven generated formulas from commutativity of + and x, true of IEEE floats; single/complete need trichotomy). NOT proved: that each entry point is greedy-valid (C03). Oracle: permuted vs unpermuted runs of the real crate on certified tie-free inputs, families as observation sets and heights within tolerance.',
+         'Lean kernel + standard axioms; commutativity laws for floats trusted.',
+         'Lean 4 equivariance theorem on the spec + permutation oracle + bit-exact correspondence'),
+ 'C12': ('C12_empty (n<=1, all entry points), C12_mst_total and C12_primitive_total: on every valid matrix (2<=n<2^31), both build modes, any prior state and ANY behaviour of the number operations the call returns normally or stops in the one documented panic (NaN reaching the sort) - no index out of bounds, failed assertion, unwrap on None, usize overflow or exhausted fuel is reachable; C12_mst_loop_total. Heap operations proved panic-free/terminating separately (Lemmas/HeapInv*). NOT proved: nnchain and generic totality/termination; finiteness/non-negativity of heights under rounding. Those: correspondence in BOTH build profiles (model fuel exhaustion = hang), watchdog, finite/non-negative oracle on tie-saturated, zero, negative, 1e+-150, duplicate, collinear inputs.',
+         'Lean kernel + standard axioms; Active-list refinement, Mat index lemmas, relabel totality proved; the two harness builds (dev: debug assertions + overflow checks; release).',
+         'Lean 4 totality theorems (mst, primitive) + two-profile correspondence + watchdog/finite oracle'),
+ 'C17': ('Full statement proved over data re-translated from the four source files on every run (finite configuration, decide/rfl over the whole table): C17_enum (+pointwise), C17_struct (names, order, types, computed x86-64 layout 0/8/16/24 size 32), C17_fns (6 prototypes, ABI-level), C17_len (Go expectedLen = Rust dis_len for all n), C17_go_calls, C17_rust_bodies. 23 mutations of headers/Rust/Go confirmed to break a named theorem, 4 ABI-neutral edits confirmed not to.',
+         'Lean kernel + standard axioms; translator extract_abi.py; x86-64 SysV layout rules; cgo - NO Go toolchain in this sandbox: go-kodama is read, never compiled.',
+         'Lean 4 decide over translated ABI tables'),
+ 'C19': ('Full statement proved on the container model: C19_push_inv/C19_push (exactly n-1 pushes over ALL op sequences), C19_push_small, C19_reset (translated reset body), C19_norm, C19_size (incl. = number of leaves for any WellFormed dendrogram), C19_eq_step/C19_eq (iff characterisation over any linearly ordered additive group, eps >= 0). Correspondence: random op scripts on the real Dendrogram/Step API vs the Lean driver (500k lines quick), statement-level oracle incl. eps in {pred d, d, succ d} around the computed difference.',
+         "Lean kernel + standard axioms + Mathlib ordered-group lemmas; float reading of 'differ by at most eps' is on the rounded difference as the code computes it; that clustering outputs are WellFormed is C01.",
+         'Lean 4 theorems on the container model + op-sequence correspondence + statement-level oracle'),
 }
 NOT_YET = "check not built yet in this round (build in progress)"
 
